@@ -31,6 +31,7 @@ PARAMS = {
     "flat_ints": {"suspect_threshold": 3600, "fail_threshold": 7200, "tolerance": 0.01},
     "loc_bbox": {"bbox": [-80, 40, -70, 60]},
 }
+POLY2 = {"type": "Polygon", "coordinates": [[[-60.0, 30.0], [-58.0, 30.0], [-58.0, 32.0], [-60.0, 30.0]]]}
 POLY = {"type": "Polygon", "coordinates": [[[-72.0, 41.0], [-70.0, 41.0], [-70.0, 43.0], [-72.0, 43.0], [-72.0, 41.0]]]}
 
 
@@ -67,6 +68,9 @@ def ctx_dict(c, wform):
         d["region"] = {"type": "Feature", "geometry": POLY}
     elif c["region"] == "feat":
         d["region"] = {"type": "FeatureCollection", "features": [{"type": "Feature", "geometry": POLY, "properties": {}}]}
+    elif c["region"] == "feat2":
+        d["region"] = {"type": "FeatureCollection", "features": [{"type": "Feature", "geometry": POLY, "properties": {}},
+                                                                 {"type": "Feature", "geometry": POLY2, "properties": {"n": 2}}]}
     d["streams"] = streams_dict(c)
     return d
 
@@ -168,6 +172,7 @@ def project_calls(calls):
     import pandas as pd
     from shapely.geometry import GeometryCollection, shape
     poly_wkt = GeometryCollection([shape(POLY)]).wkt
+    poly2_wkt = GeometryCollection([shape(POLY), shape(POLY2)]).wkt
     out = []
     for c in calls:
         kw = norm_kwargs(dict(c.kwargs))
@@ -182,7 +187,8 @@ def project_calls(calls):
                 w.append(NA)
             else:
                 w.append(int(pd.Timestamp(b).value // 10**9) - TBASE)
-        reg = "none" if c.region is None else ("polyA" if c.region.wkt == poly_wkt else "other")
+        reg = "none" if c.region is None else ("polyA" if c.region.wkt == poly_wkt else
+                                                ("polyAB" if c.region.wkt == poly2_wkt else "other"))
         out.append({"stream": c.stream_id, "module": c.module, "test": c.method, "params": pid, "win": w, "region": reg})
     return out
 
@@ -250,7 +256,7 @@ def rand_cfg(r):
             win, region = [NA, NA], "none"
         else:
             win = r.choice([[NA, NA], [k * 86400, (k + 1) * 86400], [NA, (k + 1) * 86400], [k * 86400 + 5, NA]])
-            region = r.choice(["none", "none", "geom", "feat"])
+            region = r.choice(["none", "none", "geom", "feat", "feat2"])
         cfg.append({"win": win, "region": region, "streams": streams})
     return cfg
 
